@@ -65,7 +65,7 @@ def _check_guards(rep, impl, curve):
             log.append(("miller", a, k))
             return "MILLER"
         stubs = dict(is_on_curve=is_on_curve, miller_loop=miller)
-        if impl == "ref":
+        if impl == "ref" or curve == "bn128":
             stubs.update(twist=lambda q: ("TW", q), cast_point_to_fq12=lambda p_: ("CAST", p_))
         with world.patched(pm, **stubs):
             try:
@@ -91,16 +91,18 @@ def _check_guards(rep, impl, curve):
         checks = [l for l in log if l[0] == "is_on_curve"]
         require(rep, any(c[1] and c[2] for c in checks) and any(c[3] and c[4] for c in checks), "%s checks Q against b2 and P against b" % tag, pth.decisions, rp)
         if impl == "opt":
-            if val == "MILLER":
+            if isinstance(val, str) and val == "MILLER":
                 seen["miller"] += 1
                 g, m = pth.ctx.prove(z3.And(z3.Not(infQ), z3.Not(infP)))
                 require(rep, g, "%s enters the Miller loop only for finite points" % tag, pth.decisions, rp)
                 a, k = millers[0][1], millers[0][2]
-                require(rep, a[0] is Q and a[1] is P and k.get("final_exponentiate") is True, "%s passes (Q, P, final_exponentiate) on" % tag, pth.decisions, rp)
+                want = (("TW", Q), ("CAST", P)) if curve == "bn128" else (Q, P)
+                require(rep, (a[0] is Q and a[1] is P or a[:2] == want) and k.get("final_exponentiate") is True,
+                        "%s passes (%s, final_exponentiate) on" % (tag, "twist(Q), cast(P)" if curve == "bn128" else "Q, P"), pth.decisions, rp)
             else:
                 seen["one"] += 1
                 g, m = pth.ctx.prove(z3.Or(infQ, infP))
-                require(rep, g and val == pm.FQ12.one() and not millers, "%s returns FQ12.one() exactly for an identity argument (any representative z = 0)" % tag, pth.decisions, rp)
+                require(rep, g and not isinstance(val, str) and val == pm.FQ12.one() and not millers, "%s returns FQ12.one() exactly for an identity argument (any representative z = 0)" % tag, pth.decisions, rp)
         else:
             seen["miller"] += 1
             a = millers[0][1]
@@ -110,7 +112,7 @@ def _check_guards(rep, impl, curve):
     if impl == "opt":
         # final_exponentiate=False is passed through
         log = []
-        with world.patched(pm, is_on_curve=lambda pt, b: True, miller_loop=lambda *a, **k: log.append(k) or "M"):
+        with world.patched(pm, is_on_curve=lambda pt, b: True, miller_loop=lambda *a, **k: log.append(k) or "M", twist=lambda q: q, cast_point_to_fq12=lambda q: q):
             one, zero = pm.FQ.one(), pm.FQ.zero()
             pm.pairing((pm.FQ2.one(), pm.FQ2.one(), pm.FQ2.one()), (one, one, one), final_exponentiate=False)
         require(rep, log and log[0].get("final_exponentiate") is False, "%s forwards final_exponentiate=False" % tag, None, rp)
